@@ -204,6 +204,20 @@ def run(F, rep):
                       % (g.short, ', '.join(sorted({render(c)[:40] for c in compares}))[:120]), 'matched partner erased from `%s`' % (render(erases[0]['c'][0]) if erases else ''))
     if n_o < 3:
         raise AnalysisBroken('C10.O1: only %d child-matching loops found in the equality family (3 confirmed: components, entities, unit definitions)' % n_o)
+    # O2: no whole-sequence comparison
+    rep.rule('C10.O2', 'the equality family never compares two sequences as a whole (`==`/`!=` on std::vector / std::list / std::deque, or on a map/pair that holds one): operator== of a sequence depends on the order of its elements, '
+                       'and neither the order of children nor the order of a variable\'s equivalence list is part of what an entity is (clone() rebuilds the equivalences in another order, so clone()->equals(original) would be false)')
+    from engines import whole_sequence_compares
+    from facts import fixture_funcs
+    fxs = fixture_funcs('uniq')
+    if len(whole_sequence_compares(fxs['fixtureSeqEqBad'])) != 1 or whole_sequence_compares(fxs['fixtureSeqEqGood']):
+        raise AnalysisBroken('C10.O2: the detector does not separate the two fixture functions (sa/fixtures/src/uniq.cpp)')
+    n_fam = 0
+    for g in fam.values():
+        n_fam += 1
+        for c in whole_sequence_compares(g):
+            rep.fail('C10.O2', '%s|%s' % (g.short, render(c)[:50]), g.where(c), '%s compares `%s` as a whole: equal only if the elements were inserted in the same order' % (g.short, render(c)[:70]))
+    rep.ok('C10.O2', 'scan', None, 'no whole-sequence comparison in the %d functions of the equality family (fixture: 1 of 2 functions flagged, as expected)' % n_fam)
     # U1
     ud = [r for q, r in F.records.items() if q.endswith('::UnitDefinition')]
     if len(ud) != 1:
